@@ -88,7 +88,7 @@ func genPosCase(r *Rng, alg string) posCase {
 	for _, j := range r.Perm(len(es)) {
 		c.Edges = append(c.Edges, es[j])
 	}
-	grains := []float64{8, 8, 0.25}
+	grains := []float64{8, 8, 0.25, 8.0 / (1 << 30), 8 * (1 << 20)} // also very small and very large units (C17)
 	g := grains[r.Intn(len(grains))]
 	wide := r.Bool(50)
 	for l := 0; l < nl; l++ {
@@ -120,7 +120,7 @@ func genPosCase(r *Rng, alg string) posCase {
 func genStaircase(r *Rng, c posCase) posCase {
 	blocks := 3 + r.Intn(6)
 	span := 2 + r.Intn(2)
-	g := []float64{8, 8, 0.25}[r.Intn(3)]
+	g := []float64{8, 8, 0.25, 8.0 / (1 << 30)}[r.Intn(4)]
 	var es [][]string
 	perLayer := map[int][]string{}
 	for b := 0; b < blocks; b++ {
